@@ -220,7 +220,7 @@ func (e *Encoder) writeValue(val reflect.Value, tagType byte) error {
 				return errors.New("nbt: list element " + strconv.Itoa(i) + " has tag 0x" + strconv.FormatUint(uint64(arrType), 16) +
 					", the list is of tag 0x" + strconv.FormatUint(uint64(eleType), 16))
 			}
-			err := e.writeValue(arrVal, arrType)
+			err := e.marshal(arrVal, arrType)
 			if err != nil {
 				return err
 			}
